@@ -100,14 +100,24 @@ def gen_case(rng):
         if big:
             isz = rng.choice([200, 400, 700])
         aero = rng.random() < 0.1
+        if aero and rng.random() < 0.5:
+            # the controller's whole PDO is large, the declared part small
+            isz = rng.choice([rng.randint(41, 120), 600, 1400])
+            osz = rng.choice([rng.randint(41, 120), 600, 1400])
         terms.append(dict(pos=10 + i, isz=isz, osz=osz,
                           fmmu=rng.random() < 0.6, rw=rng.random() < 0.6,
                           sharers=[rng.choice("rw") for _ in range(
                               rng.choice([0, 0, 0, 1, 2]))],
                           sharers_first=rng.random() < 0.5,
                           aero=aero,
-                          decl_in=rng.randint(1, 40) if aero else None,
-                          decl_out=rng.randint(1, 40) if aero else None))
+                          # (a declared size of 0: nothing of that
+                          # direction is transferred)
+                          decl_in=rng.choice([0, rng.randint(1, 40),
+                                              rng.randint(1, 40)])
+                          if aero else None,
+                          decl_out=rng.choice([0, rng.randint(1, 40),
+                                               rng.randint(1, 40)])
+                          if aero else None))
     ng = rng.randint(1, 4)
     groups = [[] for _ in range(ng)]
     for i in range(nt):
@@ -189,11 +199,11 @@ def check_case(case, res, sess):
             d = case["terms"][i]
             si, so = expected_sizes(d, d["rw"])
             if d["aero"]:
-                if si:
+                if si is not None:
                     fi += si
                     need += 12 + 1
                     ndg += 1
-                if so:
+                if so is not None:
                     need += 12 + so + 12 + 1
                     ndg += 2
             elif d["fmmu"]:
@@ -244,6 +254,10 @@ def check_case(case, res, sess):
             si, so = expected_sizes(d, d["rw"])
             for sm, size in ((SyncManager.IN, si), (SyncManager.OUT, so)):
                 has = sm in sg.pdo_assign.get(t, {})
+                if size == 0:
+                    # nothing to reserve: an empty region lies anywhere
+                    res.count("declared_sizes_of_zero")
+                    continue
                 if (size is not None) != has:
                     res.violation(
                         "unexplained:region-presence",
